@@ -46,7 +46,8 @@ MODELS = {
     "gffutils/helpers.py": {
         "infer_dialect": ["GffModel.Helpers.inferDialect"],
         "_choose_dialect": ["GffModel.Helpers.chooseDialect", "GffModel.Helpers.tally", "GffModel.Helpers.winner"],
-        "make_query": ["GffModel.Interface.Query", "GffModel.Interface.runQuery", "GffModel.Interface.limitBins"],
+        "make_query": ["GffModel.Sql.makeQuery", "GffModel.Sql.makeQueryAst", "GffModel.Interface.Query", "GffModel.Interface.runQuery",
+                       "GffModel.Interface.limitBins"],
         "_bin_from_dict": ["GffModel.Feature.calcBin"],
         "_jsonify": ["GffModel.Json.encodeAttrs", "GffModel.Json.encodeList"],
         "_unjsonify": ["GffModel.Json.decodeAttrs", "GffModel.Json.decodeList", "GffModel.Json.decodeObj"],
@@ -112,15 +113,17 @@ MODELS = {
         "FeatureDB.__init__": ["GffModel.Interface.openDb"],
         "FeatureDB._feature_returner": ["GffModel.Row.toFeature"],
         "FeatureDB.__getitem__": ["GffModel.Interface.getItem"],
-        "FeatureDB.count_features_of_type": ["GffModel.Interface.countFeatures"],
+        "FeatureDB.count_features_of_type": ["GffModel.Sql.countQuery", "GffModel.Interface.countFeatures"],
         "FeatureDB.features_of_type": ["GffModel.Interface.runQuery"],
         "FeatureDB.iter_by_parent_childs": ["GffModel.Interface.runRelation"],
         "FeatureDB.all_features": ["GffModel.Interface.runQuery"],
         "FeatureDB.featuretypes": ["GffModel.Interface.featuretypes"],
-        "FeatureDB._relation": ["GffModel.Interface.related", "GffModel.Interface.runRelation"],
+        "FeatureDB._relation": ["GffModel.Sql.relationText", "GffModel.Sql.relationAst", "GffModel.Interface.related",
+                                "GffModel.Interface.runRelation"],
         "FeatureDB.children": ["GffModel.Interface.runRelation"],
         "FeatureDB.parents": ["GffModel.Interface.runRelation"],
-        "FeatureDB.region": ["GffModel.Interface.region", "GffModel.Interface.regionMatches"],
+        "FeatureDB.region": ["GffModel.Sql.regionText", "GffModel.Sql.regionAst", "GffModel.Interface.region",
+                             "GffModel.Interface.regionMatches"],
         "FeatureDB.interfeatures": ["GffModel.Inter.interfeatures"],
         "FeatureDB.delete": ["GffModel.Interface.delete"],
         "FeatureDB.update": ["GffModel.Interface.update"],
